@@ -97,6 +97,7 @@ pub struct Focus {
     pub captures: bool,   // C13 capture-only chains
     pub path_replay: bool, // C04 whole path through `position ... moves ...`
     pub fen_roots: bool,  // roots loaded through from_fen and compared
+    pub check_detection: bool, // C06 on the boards the three producers build (king cache as THEY set it)
     pub skip_kkx: bool,   // leave the Kk+X family to the sibling property that runs the same oracle on it
 }
 
@@ -104,13 +105,14 @@ impl Focus {
     pub fn for_property(p: &str) -> Focus {
         Focus {
             descriptor: p == "C02" || p == "C03",
-            applier: p == "C04",
+            applier: p == "C04" || p == "C06",
             keys: p == "C05" || p == "C04",
             captures: p == "C13",
-            path_replay: p == "C04",
+            path_replay: p == "C04" || p == "C06",
             fen_roots: true,
             // C03(a) is C02's printed-text oracle; C02 runs it on Kk+X, C03 spends the time on schedules instead
-            skip_kkx: p == "C03",
+            check_detection: p == "C06",
+            skip_kkx: p == "C03" || p == "C06",
         }
     }
 }
@@ -123,6 +125,7 @@ pub struct Explorer<'a> {
     pub states: AtomicU64,
     pub transitions: AtomicU64,
     pub paths_replayed: AtomicU64,
+    pub transpositions: AtomicU64,
     pub threads: usize,
     pub cap_chain_limit_heavy: u8,
 }
@@ -150,6 +153,22 @@ fn mv_class(pos: &Pos, m: &Mv) -> &'static str {
     }
 }
 
+/// C06 on a board built by one of the producers: is_check for both colours against the forward attack oracle
+fn compare_check_detection(rep: &Report, board: &BoardState, pos: &Pos, producer: &str, ctx: J) {
+    use crate::board::PieceColor;
+    for (c, ec, name) in [(rules::WHITE, PieceColor::White, "white"), (rules::BLACK, PieceColor::Black, "black")] {
+        let want = pos.in_check(c);
+        match catch_unwind(AssertUnwindSafe(|| crate::move_generation::is_check(board, ec))) {
+            Ok(got) => {
+                if got != want {
+                    rep.fail("C06", &format!("{}-on-board-from-{}", if got { "false-check" } else { "missed-check" }, producer), format!("{}: board built by the {}: engine says the {} king is in check = {}, the rules say {} (cached king squares {:?} / {:?})", pos.fen(), producer, name, got, want, board.white_king_location, board.black_king_location), ctx.clone().set("colour", J::s(name)).set("producer", J::s(producer)));
+                }
+            }
+            Err(e) => rep.fail("C06", "is-check-panic", format!("{}: {}", pos.fen(), panic_text(e)), ctx.clone()),
+        }
+    }
+}
+
 fn panic_text(e: Box<dyn std::any::Any + Send>) -> String {
     if let Some(s) = e.downcast_ref::<&str>() {
         s.to_string()
@@ -171,6 +190,7 @@ impl<'a> Explorer<'a> {
             states: AtomicU64::new(0),
             transitions: AtomicU64::new(0),
             paths_replayed: AtomicU64::new(0),
+            transpositions: AtomicU64::new(0),
             threads,
             cap_chain_limit_heavy: if rep.quick() { 3 } else { 5 },
         }
@@ -181,7 +201,12 @@ impl<'a> Explorer<'a> {
         let shard = (key >> 64) as usize % self.seen.len();
         let mut m = self.seen[shard].lock().unwrap();
         match m.get(&key) {
-            Some(r) if *r >= remaining => false,
+            Some(r) if *r >= remaining => {
+                // the same canonical state reached again by another route: a witnessed transposition
+                // (its key was checked against the scratch key on both routes before it got here)
+                self.transpositions.fetch_add(1, Ordering::Relaxed);
+                false
+            }
             _ => {
                 m.insert(key, remaining);
                 true
@@ -228,6 +253,9 @@ impl<'a> Explorer<'a> {
                 Ok(Ok(b)) => {
                     if let Some(d) = diff_board(&b, pos) {
                         rep.fail("C15", "fen-loader-unfaithful", format!("from_fen({}) : {}", fen, d), node.replay_json("from_fen vs oracle"));
+                    }
+                    if self.focus.check_detection {
+                        compare_check_detection(rep, &b, pos, "FEN loader", node.replay_json("is_check on the FEN-loaded board"));
                     }
                     if b.zobrist_key != scratch_key(pos, h) {
                         rep.fail("C05", "fen-loader-key", format!("from_fen({}) key {} != scratch {}", fen, b.zobrist_key, scratch_key(pos, h)), node.replay_json("from_fen key vs scratch key"));
@@ -314,6 +342,9 @@ impl<'a> Explorer<'a> {
                     rep.fail("C05", &format!("generator-key/{}{}", mv_class(pos, &mv), if pos.ep.is_some() { "/parent-has-ep-target" } else { "" }), format!("{} after {}: incremental key {} != scratch key {}", pos.fen(), mv.uci(), succ.zobrist_key, want_key), self.edge_json(node, &mv, "generator key vs scratch key"));
                     ok = false;
                 }
+                if self.focus.check_detection {
+                    compare_check_detection(rep, succ, &want, "move generator", self.edge_json(node, &mv, "is_check on the generated successor"));
+                }
                 if self.focus.descriptor {
                     // descriptor: promotion piece present iff the move promotes, of the mover's colour
                     let want_promo = if mv.promo != 0 { Some(engine_piece(rules::pc(pos.stm, mv.promo))) } else { None };
@@ -337,6 +368,9 @@ impl<'a> Explorer<'a> {
                     match catch_unwind(AssertUnwindSafe(|| crate::uci::verif_make_move(&mut b2, &text, h))) {
                         Err(e) => rep.fail("C04", &format!("applier-panic/{}", mv_class(pos, &mv)), format!("{} text move {}: {}", pos.fen(), text, panic_text(e)), self.edge_json(node, &mv, "text applier")),
                         Ok(()) => {
+                            if self.focus.check_detection {
+                                compare_check_detection(rep, &b2, &want, "text-move applier", self.edge_json(node, &mv, "is_check on the board the text applier built"));
+                            }
                             if let Some(d) = diff_board(&b2, &want) {
                                 rep.fail("C04", &format!("applier-position/{}", mv_class(pos, &mv)), format!("{} text move {}: {}", pos.fen(), text, d), self.edge_json(node, &mv, "text applier position vs rules"));
                             }
@@ -525,6 +559,11 @@ impl<'a> Explorer<'a> {
             match r {
                 Err(e) => self.rep.fail("C04", "position-command-panic", format!("'{}' panicked: {}", cmd, panic_text(e)), node.replay_json("position command").set("command", J::s(&cmd))),
                 Ok(b) => {
+                    if self.focus.check_detection {
+                        // the board a whole `position ... moves ...` command builds carries the king cache of every
+                        // move applied on the way
+                        compare_check_detection(self.rep, &b, &node.pos, "position command", node.replay_json("is_check on the board built by the position command").set("command", J::s(&cmd)));
+                    }
                     if let Some(d) = diff_board(&b, &node.pos) {
                         self.rep.fail("C04", "position-command-position", format!("'{}': {}", cmd, d), node.replay_json("position command vs rules").set("command", J::s(&cmd)));
                     }
@@ -1124,7 +1163,7 @@ pub struct E1Result {
 pub fn run(rep: &Report, focus: Focus) -> E1Result {
     let quick = rep.quick();
     // the oracle must reproduce the published perft totals before anything is believed
-    let (tests, nodes) = match rules::self_test(if quick { 1_300_000 } else { u64::MAX }) {
+    let (tests, nodes) = match rules::self_test(if quick || focus.check_detection { 1_300_000 } else { u64::MAX }) {
         Ok(x) => x,
         Err(e) => crate::report::machinery_error(&format!("oracle self-test failed: {}", e)),
     };
@@ -1143,7 +1182,7 @@ pub fn run(rep: &Report, focus: Focus) -> E1Result {
     let mut by_depth: BTreeMap<u16, Vec<Node>> = BTreeMap::new();
     for (n, d) in roots {
         // capture chains multiply the work below every state: the quick tier of C13 goes one ply less deep
-        let d = if focus.captures && quick { d.saturating_sub(1).max(1) } else { d };
+        let d = if (focus.captures || focus.check_detection) && quick { d.saturating_sub(1).max(1) } else { d };
         by_depth.entry(d).or_default().push(n);
     }
     for (d, group) in by_depth {
@@ -1264,8 +1303,8 @@ pub fn run(rep: &Report, focus: Focus) -> E1Result {
             if quick { 0 } else { 1 },
         );
     }
-    // promotion
-    {
+    // promotion (not needed for C06's producer pass)
+    if !focus.check_detection {
         let mut items: Vec<Item> = Vec::new();
         let mut items_r: Vec<Item> = Vec::new();
         for c in [rules::WHITE, rules::BLACK] {
@@ -1283,6 +1322,7 @@ pub fn run(rep: &Report, focus: Focus) -> E1Result {
     }
 
     rep.set_extra("spaces", J::Arr(family_summary));
+    rep.add("transpositions_witnessed_same_state_reached_by_another_route", ex.transpositions.load(Ordering::Relaxed));
     E1Result {
         states: ex.states.load(Ordering::Relaxed),
         transitions: ex.transitions.load(Ordering::Relaxed),
